@@ -728,7 +728,7 @@ def l2(ctx):
     return obs
 
 
-@rule("C16", "H3", floor=2, kind="S",
+@rule("C16", "H3", floor=1, kind="S",
       desc="a collection href handed out is absolute-path and ends in '/': ensure_trailing_slash returns its argument "
            "only on the path where `href.endswith('/')` held, and something ending in '/' otherwise - the empty "
            "SCRIPT_NAME of a root WSGI mount becomes '/', not a relative reference that clients resolve against "
